@@ -132,6 +132,15 @@ pub fn schema_family() -> Vec<Schema> {
     v.push(o("Seq", vec![e0.clone()]));
     v.push(o("Tup", vec![e0.clone(), l("Int")]));
     v.push(o("Opt", vec![o("Opt", vec![l("Int")])]));
+    // enums whose newtype payload can be built from nothing, in positions with following siblings
+    let eo = enum_of(o("Opt", vec![l("Bool")]), l("Int"), l("Int"), l("Int"));
+    let eu = enum_of(l("Unit"), l("Int"), l("Int"), l("Int"));
+    for e in [eo, eu] {
+        v.push(o("Seq", vec![e.clone()]));
+        v.push(o("Map", vec![e.clone()]));
+        v.push(o("Tup", vec![l("Int"), e.clone(), l("Bool")]));
+        v.push(o("Struct", vec![e.clone(), l("Int")]));
+    }
     v
 }
 
@@ -199,7 +208,12 @@ pub fn matching(s: &Schema, rng: &mut Rng) -> Node {
             }
             mapn(es)
         }
-        "Enum" => match rng.below(5) {
+        "Enum" => match rng.below(8) {
+            // bare variant names, also for variants that carry a payload (near misses; a newtype variant with an
+            // optional or unit payload accepts the bare form)
+            5 => sc("Nw"),
+            6 => sc("T"),
+            7 => sc("St"),
             0 => sc("U"),
             1 => mapn(vec![(sc("U"), sc("~"))]),
             2 => mapn(vec![(sc("Nw"), matching(&s.ss[0], rng))]),
